@@ -114,7 +114,7 @@ def rand_history(rng, n):
 
 
 def main(tier=None):
-    c = Check("C04", ["Wasp.Properties.C04"], tier)
+    c = Check("C04", ["Wasp.Properties.C04", "Wasp.Properties.Facts.C04"], tier)
     c.build()
     rng = c.rng
     samples = []
